@@ -94,8 +94,12 @@ var voidElements = map[string]bool{
 
 // tTag is the context transition function for the tag state.
 func tTag(c context, s []byte) (context, int) {
-	// Find the attribute name.
+	// Find the attribute name. Like white space, a "/" separates the attributes of a
+	// start tag: a browser ignores it unless it is directly followed by ">".
 	i := eatWhiteSpace(s, 0)
+	for c.element.name != "" && i < len(s) && s[i] == '/' {
+		i = eatWhiteSpace(s, i+1)
+	}
 	if i == len(s) {
 		return c, len(s)
 	}
@@ -177,6 +181,11 @@ func allVoid(e element) bool {
 }
 
 func tAttrName(c context, s []byte) (context, int) {
+	if len(s) > 0 && s[0] == '/' {
+		// The name ended with the preceding text node.
+		c.state = stateAfterName
+		return c, 0
+	}
 	i, err := eatAttrName(s, 0)
 	if err != nil {
 		return context{state: stateError, err: err}, len(s)
@@ -292,6 +301,11 @@ func eatAttrName(s []byte, i int) (int, *Error) {
 		switch s[j] {
 		case ' ', '\t', '\n', '\f', '\r', '=', '>':
 			return j, nil
+		case '/':
+			// Ends the name like white space (not at its start: tTag skips those in start tags).
+			if j > i {
+				return j, nil
+			}
 		case '\'', '"', '<':
 			// These result in a parse warning in HTML5 and are
 			// indicative of serious problems if seen in an attr
